@@ -824,3 +824,74 @@ Proof.
   exists tb'. split; [exact Hg|]. intros fi Hin Hgr. destruct (Hfi fi Hin Hgr) as (u & Hu & Ho & Hn).
   destruct (Him u Hu) as [Hpre Hpost]. exists (fst (fst u)), (snd (fst u)), (snd u). auto.
 Qed.
+
+(** ** INSERT ... SELECT through the normal path: the same specification list, over the rows in SELECT order *)
+Theorem exec_insert_select_fires_once : forall f ctx d t src star dst s d' log n vrows,
+  exec (S f) ctx d (SInsertSel t src star) = (d', log, Ok n) ->
+  get_table d t = Some dst -> get_table d src = Some s -> star && bulk_eligible dst s = false ->
+  validate_rows d dst ctx (map (map ELit) (select_order (tb_rows s))) 0 [] = inr vrows ->
+  log = spec_insert ctx (d_trigs d) t vrows /\ n = length vrows.
+Proof.
+  intros f ctx d t src star dst s d' log n vrows H Ht Hs Hb Hv. cbn [exec step_dml] in H.
+  unfold do_insert_select in H. rewrite Ht, Hs, Hb in H.
+  destruct (Nat.eqb _ _); [|discriminate]. eapply insert_rows_fires_once; eauto.
+Qed.
+
+(** ** The images of INSERT and DELETE row triggers *)
+Lemma spec_row_in : forall trigs t tm ev img fi, In fi (spec_row trigs t tm ev img) -> f_old fi = fst img /\ f_new fi = snd img.
+Proof. intros trigs t tm ev img fi H. unfold spec_row in H. apply fired_in in H. tauto. Qed.
+
+Lemma fired_gran_stmt : forall trigs t tm ev fi,
+  In fi (fired (stmt_triggers trigs t tm ev) None None) -> t_gran (f_trig fi) = GStmt.
+Proof.
+  intros trigs t tm ev fi H. apply fired_in in H. destruct H as (Hi & _). unfold stmt_triggers in Hi.
+  apply filter_In in Hi. destruct Hi as [_ Hg]. apply gran_eqb_true in Hg. exact Hg.
+Qed.
+
+Lemma spec_stmt_gran : forall ctx trigs t tm ev fi, In fi (spec_stmt ctx trigs t tm ev) -> t_gran (f_trig fi) = GStmt.
+Proof. intros ctx trigs t tm ev fi H. unfold spec_stmt in H. destruct (is_none ctx); [eapply fired_gran_stmt; eauto|contradiction]. Qed.
+
+(** a row trigger of a successful INSERT saw no OLD row and as NEW one of the rows the statement appended *)
+Theorem exec_insert_images : forall f ctx d t tb rows d' log n vrows,
+  exec (S f) ctx d (SInsert t true rows) = (d', log, Ok n) -> frame_on f t ->
+  get_table d t = Some tb -> validate_rows d tb ctx rows 0 [] = inr vrows ->
+  exists tb', get_table d' t = Some tb' /\ tb_rows tb' = tb_rows tb ++ vrows /\
+    forall fi, In fi log -> t_gran (f_trig fi) = GRow ->
+      f_old fi = None /\ exists r, f_new fi = Some r /\ In r vrows /\ In r (tb_rows tb').
+Proof.
+  intros f ctx d t tb rows d' log n vrows H Hfr Ht Hv.
+  destruct (exec_insert_all_applied _ _ _ _ _ _ _ _ _ _ H Hfr Ht Hv) as (tb' & Hg & Hr & _).
+  destruct (exec_insert_fires_once _ _ _ _ _ _ _ _ _ _ H Ht Hv) as [Hl _].
+  exists tb'. split; [exact Hg|]. split; [exact Hr|]. intros fi Hin Hgr. subst log. unfold spec_insert in Hin.
+  apply in_app_or in Hin. destruct Hin as [Hin|Hin]; [apply spec_stmt_gran in Hin; congruence|].
+  apply in_app_or in Hin. destruct Hin as [Hin|Hin]; [|apply spec_stmt_gran in Hin; congruence].
+  apply in_flat_map in Hin. destruct Hin as (r & Hr0 & Hin).
+  apply in_app_or in Hin. destruct Hin as [Hin|Hin]; apply spec_row_in in Hin; cbn [fst snd] in Hin; destruct Hin as [Ho Hn];
+    (split; [exact Ho|]; exists r; split; [exact Hn|]; split; [exact Hr0|]; rewrite Hr; apply in_or_app; right; exact Hr0).
+Qed.
+
+(** a row trigger of a successful DELETE saw no NEW row and as OLD a row that was stored and selected; afterwards
+    exactly the unselected rows remain *)
+Theorem exec_delete_images : forall f ctx d t w d' log n tb,
+  exec (S f) ctx d (SDelete t w) = (d', log, Ok n) -> frame_on f t ->
+  wf d -> get_table d t = Some tb -> references t tb = [] ->
+  exists tb', get_table d' t = Some tb'
+    /\ tb_rows tb' = map snd (filter (fun ir => negb (selected ctx w ir)) (indexed 0 (tb_rows tb)))
+    /\ forall fi, In fi log -> t_gran (f_trig fi) = GRow ->
+         f_new fi = None /\ exists i r, f_old fi = Some r /\ nth_error (tb_rows tb) i = Some r /\ selected ctx w (i, r) = true.
+Proof.
+  intros f ctx d t w d' log n tb H Hfr Hwf Ht Hself.
+  destruct (exec_delete_all_applied _ _ _ _ _ _ _ _ _ H Hfr Hwf Ht Hself) as (tb' & Hg & Hr & _).
+  pose proof (exec_delete_fires_once _ _ _ _ _ _ _ _ _ H Ht) as Hl.
+  exists tb'. split; [exact Hg|]. split; [exact Hr|]. intros fi Hin Hgr. subst log. unfold spec_two_pass in Hin.
+  assert (Himg : forall tm, In fi (flat_map (spec_row (d_trigs d) t tm EvDelete) (delete_images ctx tb w)) ->
+            f_new fi = None /\ exists i r, f_old fi = Some r /\ nth_error (tb_rows tb) i = Some r /\ selected ctx w (i, r) = true).
+  { intros tm Hf. apply in_flat_map in Hf. destruct Hf as (img & Him & Hf). apply spec_row_in in Hf. destruct Hf as [Ho Hn].
+    unfold delete_images in Him. destruct (select_rows ctx w (indexed 0 (tb_rows tb))) as [cands|] eqn:Es; [|contradiction].
+    apply select_rows_filter in Es. subst cands. apply in_map_iff in Him. destruct Him as ([i r] & Heq & Hir). subst img.
+    cbn [fst snd] in *. apply filter_In in Hir. destruct Hir as [Hir Hsel]. apply indexed_nth in Hir. rewrite Nat.sub_0_r in Hir.
+    split; [exact Hn|]. exists i, r. tauto. }
+  apply in_app_or in Hin. destruct Hin as [Hin|Hin]; [apply spec_stmt_gran in Hin; congruence|].
+  apply in_app_or in Hin. destruct Hin as [Hin|Hin]; [eapply Himg; eauto|].
+  apply in_app_or in Hin. destruct Hin as [Hin|Hin]; [eapply Himg; eauto|apply spec_stmt_gran in Hin; congruence].
+Qed.
